@@ -295,6 +295,8 @@ class Interp:
                 return v.index_get(self, idx)
             if isinstance(v, Bytes):
                 import models as _M
+                if self.summ is not None and self.summ.is_target(v):
+                    raise self.unanalysable("a loop over a symbolic string reads the buffer it appends to")
                 return _M.byte_at(self, v, idx)
             if isinstance(v, Agg) and v.adt == "array" and is_sym(idx):
                 import models as _M
@@ -1169,7 +1171,7 @@ class Interp:
                         return Agg(cands[0], v["idx"], list(argv), v["discr"] if v.get("discr") is not None else v["idx"], vn)
         # a call on `Self` inside a provided trait method of a crate-local trait: with exactly one implementor the
         # callee is that implementor's item (or the provided body when it does not override it)
-        if f.get("trait") and res.get("kind") in (None, "unresolved"):
+        if f.get("trait") and res.get("kind") in (None, "unresolved") and not str(f.get("trait")).startswith(("std::", "core::", "alloc::")):
             impls = [i for i in self.prog.impls if i.get("trait") and (i["trait"] == f["trait"] or i["trait"].endswith("::" + f["trait"]) or f["trait"].endswith("::" + i["trait"]))]
             if len(impls) == 1:
                 key = next((it["key"] for it in impls[0]["items"] if it.get("name") == f.get("name") or it["key"].endswith("::" + str(f.get("name")))), None)
